@@ -15,6 +15,9 @@ CHECKS = {
     "C15": dict(level="exploration", technique=DIFF + "; histories with every intermediate value re-observed",
                 text="held on the executions observed: generated histories of sequence operations (every representation reached is recorded) compared step by step with a list model; all intermediate values are dumped at the end, so an operation that altered its input is visible",
                 note="element type int; first 48 elements of each value compared; materialising operations on ranges of ~2^60 elements are left to C10"),
+    "C16": dict(level="exploration", technique=DIFF + "; pull counting through a recording writer for laziness",
+                text="held on the executions observed: generator histories (each generator consumed by its consumers and again by the dump) compared with re-creatable Python streams; laziness is observed directly: the source is wrapped in display(), the lines written are the elements pulled, compared with what a maximally lazy Python pipeline pulls plus a constant per adaptor",
+                note="first 40 elements compared; pipelines whose model would search without bound are not generated (C10 covers termination)"),
 }
 REASON_PENDING = "check under construction in this round (not yet claimed)"
 
